@@ -29,7 +29,6 @@ KNOWN_D2 = "EmptyMatchAtEndOfUnterminatedLastLine"
 KNOWN_MLMAX = "MultiLineMaxCountSummary"
 KNOWN_MLOEMPTY = "MultiLineOnlyMatchingDropsEmptyMatches"
 KNOWN_SUMBYTES = "SummaryStatsBytesPrintedSampledBeforeOutput"
-KNOWN_JSONSUM = "JsonSummaryOmitsFilesWithoutOutput"
 
 LINE_PATTERNS = [
     "a", "b+", "$", "^", r"\b", r"\B", "x*", "a|$", "c|$", "^$", r"\w+", "[ab]", "a.", ".", r"\s", "(?:ab)?", "b$",
@@ -332,7 +331,7 @@ def check_relations(ctx, c, outs, where):
                 v("stats.matched_lines differs from --count", file=f, stats=a, count=n)
             if a[0] != 1 or a[1] != (1 if std_mc > 0 else 0):
                 v("stats.searches / searches_with_match wrong", file=f, stats=a)
-        if st_json and st_std and je["begins"]:
+        if st_json and st_std:
             a, b = st_std[0], st_json[0]
             if (a[0], a[1], a[2], a[4], a[5]) != (b[0], b[1], b[2], b[4], b[5]):
                 v("per-file stats differ between standard --stats and JSON", file=f, std=a, json=b)
@@ -576,7 +575,8 @@ def check_cli(ctx, c, lib_outs):
         v("no summary message under --json --stats")
     else:
         ends = [m["data"]["stats"] for m in msgs if m["type"] == "end"]
-        for k in ("searches", "searches_with_match", "bytes_searched", "bytes_printed", "matched_lines", "matches"):
+        # (files without output have no end message; their searches / bytes searched are compared with --stats below)
+        for k in ("searches_with_match", "bytes_printed", "matched_lines", "matches"):
             if summary[k] != sum(e[k] for e in ends):
                 v("JSON summary.%s is not the sum over the end messages" % k, summary=summary[k],
                   ends=[e[k] for e in ends])
@@ -590,16 +590,8 @@ def check_cli(ctx, c, lib_outs):
         ends = [m["data"]["stats"] for m in msgs if m["type"] == "end"]
         want_bytes = tot_std[5] if c["mx"] is None else summary["bytes_searched"]
         if summary["searches"] != tot_std[3] or summary["bytes_searched"] != want_bytes:
-            # known: JSONSink::finish returns before adding the statistics of a search that printed nothing
-            if (summary["searches"] == nbegin < tot_std[3]
-                    and summary["bytes_searched"] == sum(e["bytes_searched"] for e in ends)):
-                ctx.known(KNOWN_JSONSUM, "cli pattern=%r files=%r: --json summary searches=%d bytes_searched=%d, --stats: "
-                          "%d files searched, %d bytes searched" % (c["pattern"], [d for _, d in c["files"]],
-                                                                   summary["searches"], summary["bytes_searched"],
-                                                                   tot_std[3], tot_std[5]))
-            else:
-                v("--json summary (searches, bytes searched) differs from the --stats totals",
-                  json=(summary["searches"], summary["bytes_searched"]), stats=(tot_std[3], tot_std[5]))
+            v("--json summary (searches, bytes searched) differs from the --stats totals",
+              json=(summary["searches"], summary["bytes_searched"]), stats=(tot_std[3], tot_std[5]))
     # --quiet with statistics (-q --stats, and --json -q where statistics are implicit) must still search every
     # file: the totals are the sums of what the per-file modes report
     nl = len(parse_paths(r["l"][1]))
